@@ -1736,6 +1736,8 @@ impl<R: Read> Vp8Decoder<R> {
             let dcq = self.segment[sindex].y2dc;
             let acq = self.segment[sindex].y2ac;
             let n = self.read_coefficients(&mut block, p, plane, complexity as usize, dcq, acq)?;
+            #[cfg(image_webp_verif)]
+            crate::verif_hooks::note_ctx_call(plane, complexity as usize, n);
 
             self.left.complexity[0] = if n { 1 } else { 0 };
             self.top[mbx].complexity[0] = if n { 1 } else { 0 };
@@ -1761,6 +1763,8 @@ impl<R: Read> Vp8Decoder<R> {
                 let acq = self.segment[sindex].yac;
 
                 let n = self.read_coefficients(block, p, plane, complexity as usize, dcq, acq)?;
+                #[cfg(image_webp_verif)]
+                crate::verif_hooks::note_ctx_call(plane, complexity as usize, n);
 
                 non_zero |= n || block[0] != 0;
                 if block[0] != 0 || n {
@@ -1791,6 +1795,8 @@ impl<R: Read> Vp8Decoder<R> {
 
                     let n =
                         self.read_coefficients(block, p, plane, complexity as usize, dcq, acq)?;
+                    #[cfg(image_webp_verif)]
+                    crate::verif_hooks::note_ctx_call(plane, complexity as usize, n);
                     non_zero |= n || block[0] != 0;
                     if block[0] != 0 || n {
                         transform::idct4x4(block);
@@ -2149,6 +2155,8 @@ impl<R: Read> Vp8Decoder<R> {
 
             for mbx in 0..self.mbwidth as usize {
                 let mut mb = self.read_macroblock_header(mbx)?;
+                #[cfg(image_webp_verif)]
+                crate::verif_hooks::note_mb(mbx, mby, mb.luma_mode != LumaMode::B, mb.coeffs_skipped);
                 let blocks = if !mb.coeffs_skipped {
                     let (blocks, non_zero) = self.read_residual_data(&mb, mbx, p)?;
                     mb.non_zero_coeffs = non_zero;
